@@ -76,6 +76,29 @@ def load_trace(tid, f, skip, work, kind='load'):
     return {'tid': tid, 'kind': kind, 'D': D, 'file': f, 'skip': skip, 'ok': ok, 'out': out, 'dok': dok, 'defout': dout}
 
 
+def insertion_stage(verdict):
+    """(C03, C02) the guesser's loader gives every alpha variable of a base structure its own case-mask variable
+    (Loader.tla InsLoop = InsertC): every file of the Loader model space through the real default load, against the file as written"""
+    lmc, lcfg = mc_stage()
+    files = export_files(lcfg)
+    work = core.scratch('insert')
+    itraces, imeta = [], {}
+    for i, f in enumerate(files, 1):
+        if not any(x['s'][0][0] != 'M' for x in f):
+            continue
+        itraces.append(load_trace(i, f, False, work, kind='insert'))
+        imeta[i] = {'check': 'loader gives every alpha variable its case mask',
+                    'file': [[label_text(x['s']), x['w']] for x in f]}
+    iv, ist = core.validate_traces('TrLoader.tla', itraces, chunk=400, timeout=600)
+    for t in itraces:
+        v = iv[t['tid']]
+        if v[0] != 'ACCEPT':
+            m = imeta[t['tid']]
+            verdict.violation(dict(m, clause=v[2], failing=[v[2]], loaded=[x['s'] for x in t['defout']]),
+                              'clause %s; %s' % (v[2], core.short(m, 260)))
+    return {'files_of_Loader_model_space_loaded': len(itraces), 'Loader_model_checking': lmc, 'trace_validation': ist}
+
+
 def pm_of(path):
     for v, p in rulesets.neutral_value_prob(os.path.join(path, 'Grammar', 'grammar.txt')):
         if v == 'M':
